@@ -186,6 +186,12 @@ func checkC13(c *Ctx) {
 	c.checkPooledSlicesDisjoint("O8 pooled-slices-disjoint")
 	c.checkClockRefresh("O5 clock-refresh")
 	c.checkNdigits("O7 bucket-identity-digits")
+	// "intact": kind, name and tags of what a handle emits are those it was allocated with
+	c.checkHandleOwnTemplate("O3 handle-own-template")
+	// the transport's limit is the datagram limit, whatever the reporter's packet size: a metric larger than
+	// the packet size still goes out alone instead of leaving half a message in front of the next batch
+	// (shared with C15 O2)
+	c.shared(checkC15, map[string]string{"O2 bound-check": "O2 transport-limit"})
 	// the bucket tag value renders the open ends as in the StatsD reporter (shared table rule, C18 O2)
 	c.checkM3Renderers("O7 bucket-identity-open-ends")
 
